@@ -582,7 +582,8 @@ class MatchControlConstructionToken(CompositeBaseToken):
 
     @property
     def match_type(self) -> ExpressionToken:
-        return self.value[6]
+        # MATCH(value, array) has no third argument (Excel then uses match type 1)
+        return self.value[6] if len(self.value) == 8 else None
 
 
 class XMatchControlConstructionToken(CompositeBaseToken):
